@@ -103,17 +103,18 @@ def main():
                 except subprocess.TimeoutExpired:
                     res[pid] = {'rc': 'timeout'}
             caught = any(v['rc'] == 1 for v in res.values())
-            out.append({'mutant': desc, 'line': src[ln].rstrip(), 'new': new.rstrip(), 'result': 'caught' if caught else 'SURVIVED', 'checks': res})
-            print(desc, '->', 'caught' if caught else 'SURVIVED', {k: v['rc'] for k, v in res.items()}, flush=True)
+            verdict = 'caught' if caught else ('CRASH' if any(v['rc'] not in (0, 1) for v in res.values()) else 'SURVIVED')
+            out.append({'mutant': desc, 'line': src[ln].rstrip(), 'new': new.rstrip(), 'result': verdict, 'checks': res})
+            print(desc, '->', verdict, {k: v['rc'] for k, v in res.items()}, flush=True)
         open(target, 'w').write(''.join(src))
     finally:
         shutil.rmtree(work, ignore_errors=True)
     json.dump(out, sys.stdout if '--json' in sys.argv else open(os.devnull, 'w'), indent=1)
-    surv = [o for o in out if o['result'] == 'SURVIVED']
+    surv = [o for o in out if o['result'] in ('SURVIVED', 'CRASH')]
     print(f"\n{len(out)} mutants, {sum(1 for o in out if o['result'] == 'caught')} caught, {len(surv)} survived, "
           f"{sum(1 for o in out if o['result'] == 'import-fails')} fail to import")
     for o in surv:
-        print('SURVIVED', o['mutant'], '|', o['line'].strip(), '=>', o['new'].strip())
+        print(o['result'], o['mutant'], '|', o['line'].strip(), '=>', o['new'].strip())
 
 
 if __name__ == '__main__':
